@@ -927,6 +927,72 @@ func c20QUIC(r *ev.Run) {
 			}
 		}
 	}
+	// ---- the SCION daemon behind the key exchange.  (a) A key-exchange server in another AS and a daemon
+	// that cannot be reached before the caller's deadline (restart, or an exchange begun just before the
+	// deadline): the exchange must fail, not take the process down.  (b) Exchanges must not leave
+	// connections to the daemon open: a peer that keeps the client re-keying sets the rate.
+	if r.Only() == "" || r.Only() == "quic-daemon" {
+		oia, _ := addr.ParseIA("1-ff00:0:111")
+		dead, _ := net.Listen("tcp", net.JoinHostPort(cliIP.String(), "0"))
+		deadAddr := dead.Addr().String()
+		dead.Close()
+		g := &ntske.Fetcher{Log: slog.New(slog.DiscardHandler), Port: strconv.Itoa(port)}
+		g.TLSConfig = tls.Config{InsecureSkipVerify: true, ServerName: srvIP.String(), MinVersion: tls.VersionTLS13, NextProtos: []string{"ntske/1"}}
+		g.QUIC.Enabled = true
+		g.QUIC.DaemonAddr = deadAddr
+		g.QUIC.LocalAddr = udp.UDPAddr{IA: oia, Host: &net.UDPAddr{IP: cliIP.AsSlice()}}
+		g.QUIC.RemoteAddr = srvAddr
+		for k := 0; k < 3; k++ {
+			var err error
+			ctx, cancel := context.WithTimeout(context.Background(), 300*time.Millisecond)
+			pnc := c02Recover(func() { _, err = g.FetchData(ctx) })
+			cancel()
+			r.Eval(1)
+			if pnc != nil {
+				r.Violation("Fetcher.FetchData(QUIC)|panic|key-exchange server in another AS, SCION daemon unreachable", "quic-daemon", map[string]any{"panic": fmt.Sprint(pnc), "attempt": k + 1})
+				break
+			}
+			if err == nil {
+				r.Violation("Fetcher.FetchData(QUIC)|wrong-value:exchange that must fail succeeded|SCION daemon unreachable", "quic-daemon", nil)
+				break
+			}
+			r.Class("quic-daemon:unreachable->error")
+		}
+		fd, err := peer.NewFakeDaemon(net.JoinHostPort(cliIP.String(), "0"), []byte("c20"), time.Hour)
+		if err != nil {
+			r.Inconclusive("fake daemon: " + err.Error())
+		} else {
+			fd.LocalIA = uint64(ia)
+			h := &ntske.Fetcher{Log: slog.New(slog.DiscardHandler), Port: strconv.Itoa(port)}
+			h.TLSConfig = tls.Config{InsecureSkipVerify: true, ServerName: srvIP.String(), MinVersion: tls.VersionTLS13, NextProtos: []string{"ntske/1"}}
+			h.QUIC.Enabled = true
+			h.QUIC.DaemonAddr = fd.Addr()
+			h.QUIC.LocalAddr = udp.UDPAddr{IA: ia, Host: &net.UDPAddr{IP: cliIP.AsSlice()}}
+			h.QUIC.RemoteAddr = srvAddr
+			const exchanges = 12
+			okN := 0
+			for k := 0; k < exchanges; k++ {
+				ctx, cancel := context.WithTimeout(context.Background(), 5*time.Second)
+				_, err := h.FetchData(ctx)
+				cancel()
+				r.Eval(1)
+				if err == nil {
+					okN++
+					for j := 1; j < 8; j++ { // spend the pool: the next call exchanges keys again
+						_, _ = h.FetchData(context.Background())
+					}
+				}
+			}
+			time.Sleep(200 * time.Millisecond)
+			if live := fd.LiveConns(); live > 2 {
+				r.Violation("Fetcher.FetchData(QUIC)|state:connections to the SCION daemon left open by key exchanges", "quic-daemon",
+					map[string]any{"key_exchanges": exchanges, "successful": okN, "daemon_connections_open_afterwards": live})
+			} else {
+				r.Class(fmt.Sprintf("quic-daemon:%d key exchanges leave no daemon connection open", exchanges))
+			}
+			fd.Close()
+		}
+	}
 	// ---- the real SCION client wired the way the time service wires it: the address it is asked to
 	// measure against is also the address of its key-exchange server. The exchange names another NTP
 	// port; nobody answers there, so every measurement spends a cookie, and when the pool is empty
